@@ -46,22 +46,27 @@ Proof. exact roland_get_file_total_lemma. Qed.
 (** Chain resolution through the DECODED AKAI table.  Bounded theorem (the bound is in the
     statement): for every raw table of n <= 4 words over {free, EOF, reserved x2, every
     in-range link, one out-of-range} and every start, a raw chain whose sectors are each
-    linked once and whose head is its lowest sector resolves to exactly itself.  The
-    unbounded statement is [akai_decode_chain_statement]; not proved (DESIGN.md, C07). *)
+    linked exactly once resolves to exactly itself - whatever the order of its sectors (after
+    the D4 fix the head need not be the lowest sector) and whatever else the table holds.
+    The unbounded statement is [akai_decode_chain_statement]; not proved (DESIGN.md, C07). *)
 Theorem akai_decode_chain_upto_4_partial : all_ok 1 && all_ok 2 && all_ok 3 && all_ok 4 = true.
 Proof. exact akai_chain_small_scope_all. Qed.
 Print Assumptions akai_decode_chain_upto_4_partial.
 
-(** Known findings as refutations on the faithful model. *)
-Theorem akai_chain_head_not_lowest_refuted :
-  exists block s c,
-    raw_chain (S (length block)) block [] s = Some c /\ linked_once block c = true /\
-    akai_get_segment block s <> Ok c.
-Proof. exact akai_chain_head_not_lowest_refuted_lemma. Qed.
-Theorem akai_dir_run_at_table_end_refuted :
-  akai_get_segment [0; 0; 0; SAT_RES_STD; SAT_RES_STD] 3 = Ok [3]
+(** Directory areas, same bound: from the first sector of every maximal run of reserved-flag
+    words resolution yields exactly the run, including a run that ends with the table (D11 fix). *)
+Theorem akai_dir_run_upto_4_partial : all_runs_ok 1 && all_runs_ok 2 && all_runs_ok 3 && all_runs_ok 4 = true.
+Proof. exact akai_run_small_scope_all. Qed.
+Print Assumptions akai_dir_run_upto_4_partial.
+
+(** The two former findings, now repaired in /repo (fix: commits d707c3a, 99f5bc9). *)
+Theorem akai_chain_head_not_lowest_fixed :
+  akai_get_segment [0; 0; 0; 5; 0; SAT_EOF; 0; 3] 7 = Ok [7; 3; 5].
+Proof. exact akai_chain_head_not_lowest_fixed_lemma. Qed.
+Theorem akai_dir_run_at_table_end_fixed :
+  akai_get_segment [0; 0; 0; SAT_RES_STD; SAT_RES_STD] 3 = Ok [3; 4]
   /\ akai_get_segment [0; 0; 0; SAT_RES_STD; SAT_RES_STD; 0] 3 = Ok [3; 4].
-Proof. exact akai_dir_run_at_table_end_refuted_lemma. Qed.
+Proof. exact akai_dir_run_at_table_end_fixed_lemma. Qed.
 
 (** Non-vacuity: a fragmented chain, a reserved run and garbage in one 8-word table. *)
 Example c07_example_chain :
